@@ -229,6 +229,9 @@ impl RowIdSequence {
         });
         for matches in &mut segment_matches {
             matches.sort_unstable();
+            // The same row id may be requested more than once. Keep one match, otherwise
+            // U64Segment::delete stalls on the repeated value and ignores the rest.
+            matches.dedup();
         }
 
         let mut offset = 0;
